@@ -55,7 +55,7 @@ type ForceSlot struct {
 // different documents depending on the document that contains it
 var docPool = map[string][]string{
 	"same":   {"file:///w/a/x.json", "file:///w/a/other.json"},
-	"sub":    {"file:///w/a/s/x.json", "file:///w/a/s/other.json"},
+	"sub":    {"file:///w/a/s/x.json", "file:///w/a/s/other.json", "file:///w/a/s%20p/x.json"}, // one directory whose name needs escaping
 	"parent": {"file:///w/x.json", "file:///w/other.json"},
 	"cousin": {"file:///w/b/x.json", "file:///w/b/other.json", "file:///w/a-common/x.json", "file:///w/a.json"},
 	"http":   {"http://h.example/d/x.json", "http://h.example/d/other.json"},
@@ -121,8 +121,8 @@ func dirRelation(from, to string) string {
 func relPath(from, to string) string {
 	fu, _ := url.Parse(from)
 	tu, _ := url.Parse(to)
-	fd := strings.Split(strings.Trim(path.Dir(fu.Path), "/"), "/")
-	tp := strings.Split(strings.Trim(tu.Path, "/"), "/")
+	fd := strings.Split(strings.Trim(path.Dir(fu.EscapedPath()), "/"), "/")
+	tp := strings.Split(strings.Trim(tu.EscapedPath(), "/"), "/")
 	if len(fd) == 1 && fd[0] == "" {
 		fd = nil
 	}
@@ -170,7 +170,7 @@ func RefText(from, to string, toks []string, form string) string {
 		}
 	case "rootrel":
 		if sameAuthority {
-			return tu.Path + frag
+			return tu.EscapedPath() + frag
 		}
 	}
 	return to + frag
